@@ -242,6 +242,14 @@ CHECKS['C20'] = dict(
     ref='DESIGN.md section 7 C20',
 )
 
+CHECKS['C10'] = dict(
+    module='TagIndex',
+    technique="TLA+ reference semantics (Eval of a condition on one series) + exhaustive TLC comparison with a dictionary/posting-list shaped model over all index placements of a small universe + TLC as judge of the real query path's answers (trace validation), named deviations for every recorded defect",
+    text='TagIndex.tla defines what a tag condition means on one series (equals, in, like shapes, structured regular expressions, negated atoms = has the key and the atom is false, and / or / parentheses) and what group by returns (the selected series that have every grouping key, counted per value tuple); next to it the same questions are answered the way the code does: atoms resolve to value ids in a tag value dictionary spread over mutable map, immutable map and files, value ids to posting lists of an inverted index, not = key holders from the forward index minus matches, and / or = set operations, group by = forward index scanners plus reverse dictionary lookup. TLC explores every write order and every placement of PrepareFlush / Flush / Compact / Reopen for all series sets of a small universe (2 keys, values a, ab, b, keys missing, untagged series) and checks in every reachable state that both evaluations agree for every atom and every depth-2 condition, and that the judge used on traces accepts the reference answer and rejects its neighbours. The real code is bound by trace validation: a real tsdb.Engine is filled with seeded series universes (shared and missing keys, common prefixes, multi-byte UTF-8, thousands of series, ids across bitmap container boundaries), its dictionaries and index stores are moved through memory / being flushed / flushed / compacted / reopened, and conditions generated from the grammar are asked as SQL text through sql.Parse, query.MetricDataSearch and the real leaf task processor; TLC evaluates the reference on the logged universe and requires the returned groups and per-group series counts to be exactly the reference answer. An input/history quantifier needs an oracle for answers nobody wrote down and coverage of every index state; the specification supplies the first and the model checker plus the placement tours the second.',
+    note="Trusted: TLC and the Json / SortedDict modules (string matching shared with C20), the driver's interning of strings to indexes and its bookkeeping of per-metric series ids, the in-process loopback transport (root and one leaf in one process). The observation channel is the query result: every series writes the value 1 once per era into a sum field and queries only ask the current slot, so the data path is kept trivial; two defects of it that hide selected series are recorded as named deviations. Regular expressions and like patterns come from a structured class; tag values cannot contain a single quote (no escape in the lexer). Exhaustive only inside the small universe; real universes are seeded samples plus the complete enumeration of the one/two-series universes in the thorough tier. Concurrent flush/query schedules and crash recovery of the dictionaries belong to C12/C19 and C07/C09.",
+    ref='DESIGN.md section 7 C10',
+)
+
 NOT_YET = {
 }
 
